@@ -135,8 +135,8 @@ pub fn run(tier: Tier, seed: u64) -> i32 {
          pairs available from the real prover (V2, V3 proofs x V1, V2, V3 verification); non-trivial = the \
          mismatched statement really differs in bytes; distinct = fingerprint of the case descriptor",
     );
-    ev.assume("V1 proofs cannot be produced by the real prover (UnsupportedProvingVersion); pairs with a V1 proof are not explored");
-    let n_spec = tier.pick(10u64, 60u64);
+    ev.assume("V1 proofs cannot be produced by the real prover (UnsupportedProvingVersion); they come from the naive prover R-PRV (circuits with n <= 64)");
+    let n_spec = tier.pick(30u64, 200u64);
     par_cases(n_spec, threads(), |si| {
         let mut rng = case_rng(seed, "C04", si);
         let rows = [8usize, 12, 16, 31, 32, 40, 64, 100, 129, 250][si as usize % 10];
@@ -180,6 +180,37 @@ pub fn run(tier: Tier, seed: u64) -> i32 {
                 }
                 ev.set_insert("version_pairs", format!("{pv:?}->{vv:?}"));
                 expect_reject(&ev, "version", common::verify(v, proof, &s.pi, vv), json!({"spec": si, "proof": format!("{pv:?}"), "verify": format!("{vv:?}")}), true);
+            }
+        }
+        // ---- V1 proofs (only the naive prover can produce them; n <= 64) -----------
+        if s.rows.next_power_of_two() <= 64 {
+            use crate::refimpl::{kzg as rk, prover as rp, verifier as rv};
+            let ppx = crate::util::pp(common::min_degree(s.rows));
+            if let (Some(key), Some(srs), Ok(vk), Ok((inst, _))) = (
+                rp::KeyPolys::from_prover_bytes(&s.compiled.prover.to_bytes()),
+                rk::parse_srs(&ppx.to_var_bytes()),
+                rv::parse_verifier(&s.vbytes),
+                common::build_instance(&s.prog, &s.inputs, &[]),
+            ) {
+                let wires = sat::wires_of(&inst);
+                let bl = rp::Blinders {
+                    wires: core::array::from_fn(|_| [rand_scalar(&mut rng), rand_scalar(&mut rng)]),
+                    perm: [rand_scalar(&mut rng), rand_scalar(&mut rng), rand_scalar(&mut rng)],
+                    quotient: [rand_scalar(&mut rng), rand_scalar(&mut rng), rand_scalar(&mut rng)],
+                };
+                if let Some(p1) = rp::prove(&key, &srs.powers, &vk, &wires, &s.pi, &bl, rv::Version::V1) {
+                    if let Ok(proof1) = Proof::from_slice(&p1) {
+                        ev.case(&json!({"kind": "matched", "spec": si, "version": "V1 (naive prover)"}), true);
+                        match common::verify(v, &proof1, &s.pi, PlonkVersion::V1) {
+                            Ok(()) => ev.bucket("matched-accepted-v1"),
+                            Err(f) => ev.violation("C04:matched-combination-rejected:V1", json!({"spec": si, "error": f.text()})),
+                        }
+                        for vv in [PlonkVersion::V2, PlonkVersion::V3] {
+                            ev.set_insert("version_pairs", format!("V1->{vv:?}"));
+                            expect_reject(&ev, "version", common::verify(v, &proof1, &s.pi, vv), json!({"spec": si, "proof": "V1", "verify": format!("{vv:?}")}), true);
+                        }
+                    }
+                }
             }
         }
         // ---- public inputs -------------------------------------------------
@@ -281,7 +312,8 @@ pub fn run(tier: Tier, seed: u64) -> i32 {
     });
     ev.floor("matched accepted", ev.bucket_get("matched-accepted"), 2 * n_spec);
     ev.floor("rejected mismatches", ev.bucket_get("rejected"), tier.pick(400, 3000));
-    ev.floor("version pairs", ev.set_len("version_pairs") as u64, 4);
+    ev.floor("version pairs", ev.set_len("version_pairs") as u64, 6);
+    ev.floor("V1 proofs accepted by V1 verification", ev.bucket_get("matched-accepted-v1"), 3);
     ev.floor("near-miss kinds", ev.set_len("near_miss_kinds") as u64, 5);
     ev.floor("label mismatches", ev.bucket_get("kind.label"), 3 * n_spec);
     ev.finish()
